@@ -625,6 +625,54 @@ fn grid(tier: Tier, acc: &mut Acc) {
         };
         rec(&mut seq, n + 1, &lens, &ds, &mut f);
     }
+    // Near the top of the 256-bit range: epoch difficulties between 2^253 and 2^256, two epoch switches, all epochs of
+    // 1024 blocks (so that the accumulated total, about one middle epoch, is still representable). `start * tau^n`
+    // overflows here although every legal end value fits.
+    let mut top = 0u64;
+    {
+        let len = 1024u64;
+        let ratios: [(u32, u32); 5] = [(1, 1), (5, 4), (3, 2), (7, 4), (2, 1)];
+        let two = |k: u32| {
+            let mut v = U256::one();
+            for _ in 0..k {
+                v = &v * 2u32;
+            }
+            v
+        };
+        for a in 3u32..=15 {
+            for (n1, d1) in ratios {
+                for (n2, d2) in ratios {
+                    let d0 = U256::from(a) * two(242);
+                    let dd1 = &d0 * n1 / d1;
+                    let dd2 = &dd1 * n2 / d2;
+                    if dd2 >= two(246) {
+                        continue;
+                    }
+                    // the difficulties a compact target can express (as the random generator does)
+                    let cs: Vec<u32> = [&d0, &dd1, &dd2].iter().map(|d| difficulty_to_compact((*d).clone())).collect();
+                    let rs: Vec<U256> = cs.iter().map(|c| compact_to_difficulty(*c)).collect();
+                    if rs[2] >= two(246) || rs.windows(2).any(|w| w[1] > &w[0] * 2u32 || &w[1] * 2u32 < w[0]) {
+                        continue;
+                    }
+                    let epochs: Vec<Epoch> = cs.iter().map(|c| Epoch { len, compact: *c }).collect();
+                    top += 1;
+                    let mut obs = Obs::default();
+                    if let Err(fl) = check_legal(&epochs, len - 1, 0, 10, 10, &mut obs) {
+                        let cv = json!({"Legal": {"epochs": epochs, "is": len - 1, "ie": 0, "start_td_shift": 10, "first_number": 10}});
+                        *sig_hist.entry(fl.signature.clone()).or_default() += 1;
+                        if known.contains(&fl.signature) {
+                            rejected_known += 1;
+                            acc.known_hit(&fl.signature, &fl.message, cv);
+                        } else if !new_failures.iter().any(|(f, _)| f.signature == fl.signature) {
+                            new_failures.push((fl, cv));
+                        }
+                    }
+                }
+            }
+        }
+    }
+    total += top;
+    acc.count_label("grid:near-top-of-256-bit-range", top);
     for (fl, cv) in new_failures {
         acc.fail(&fl, cv);
     }
